@@ -1,8 +1,12 @@
 SPECIFICATION Spec
-CONSTANTS Family = "mix"
-  MaxUnits = 6
+CONSTANTS Families = {"mix"}
   MaxFlags = 2
   MaxTail = 5
-  MaxArgs = 4
+  ReuseUnits = 3
+  ReuseArgs = 4
+  ReuseSum = 5
+  EchoMaxWords = 3
+  MixUnits = 6
+  MixArgs = 4
   Rich = TRUE
 INVARIANTS IdentityLaw WidthLaw EchoPlainLaw EmitInv
